@@ -40,6 +40,7 @@ _RP_TBL = models.ResourceProvider.__table__
 _AGG_TBL = models.PlacementAggregate.__table__
 _RP_AGG_TBL = models.ResourceProviderAggregate.__table__
 _RP_TRAIT_TBL = models.ResourceProviderTrait.__table__
+_TRAIT_TBL = models.Trait.__table__
 
 LOG = logging.getLogger(__name__)
 
@@ -489,6 +490,14 @@ def _set_traits(context, rp, traits):
     if to_delete:
         _delete_traits_from_provider(context, rp.id, to_delete)
     if to_add:
+        # The traits were looked up before this transaction: do not
+        # associate one that has been deleted since.
+        sel = sa.select(_TRAIT_TBL.c.id).where(
+            _TRAIT_TBL.c.id.in_(to_add)).with_for_update()
+        missing = to_add - set(r[0] for r in context.session.execute(sel))
+        if missing:
+            raise exception.TraitNotFound(name=', '.join(
+                sorted(t.name for t in traits if t.id in missing)))
         _add_traits_to_provider(context, rp.id, to_add)
     rp.increment_generation()
 
